@@ -718,6 +718,9 @@ func (p *Parser) parseSelectStatement() (ast.Statement, error) {
 					// Parse join condition
 					cond, err := p.parseExpression()
 					if err != nil {
+						if isRecursionLimit(err) {
+							return nil, err // a limit violation keeps its own code
+						}
 						return nil, goerrors.InvalidSyntaxError(
 							fmt.Sprintf("error parsing ON condition for %s JOIN: %v", joinType, err),
 							p.currentLocation(),
@@ -1170,6 +1173,9 @@ func (p *Parser) parseSelectWithSetOperations() (ast.Statement, error) {
 
 		rightStmt, err := p.parseSelectStatement()
 		if err != nil {
+			if isRecursionLimit(err) {
+				return nil, err // a limit violation keeps its own code
+			}
 			return nil, goerrors.InvalidSetOperationError(
 				operationLiteral,
 				fmt.Sprintf("error parsing right SELECT: %v", err),
